@@ -74,6 +74,45 @@ def _default_colour(src, const):
     return ANSI_VARIANTS.index(m.group(1))
 
 
+def _fn_takes_over(why):
+    """a BODY-shape pin that reads no data off the text (see gen_model.takes_over): the function is translated by SvgFn
+    (tools/gen_fn_svg.py) and proved equal to the hand model in Proofs/SvgGen.v; C14 has both generators in gen_deps"""
+    takes_over("SvgFn", why)
+
+
+def _effect_classes_strict(wf, binds, eff):
+    """write_fg_span, the known shape: `if let Some(class) = <colour>.as_deref() { classes.push(class); }` for the fg and the
+    underline colour, then one `if <test> { classes.push("<name>"); }` per effect, where <test> is either a boolean local
+    bound above (`let bold = effects.contains(anstyle::Effects::BOLD);` .. `if bold {`) or the same call spelled in the
+    condition (`if effects.contains(anstyle::Effects::BOLD) {`): the SAME (effect, class) datum.  None when the text is
+    not of this shape or does not account for every `anstyle::Effects::X` of the body."""
+    pushes = list(re.finditer(r"if\s+(?:let Some\(class\) = (\w+)\.as_deref\(\)|(\w+)|effects\.contains\(anstyle::Effects::(\w+)\))\s*\{\s*"
+                              r"classes\.push\((?:class|\"([^\"\\]*)\")\);\s*\}", wf))
+    if len(pushes) != len(re.findall(r"classes\.push\(", wf)):
+        return None
+    if len(pushes) < 2 or pushes[0].group(1) != "fg_color" or pushes[1].group(1) != "underline_color":
+        raise GenError("write_fg_span: expected the fg colour class, then the underline colour class first")
+    out = []
+    for p in pushes[2:]:
+        var, inline, lit = p.group(2), p.group(3), p.group(4)
+        if lit is None or (inline is None and (var is None or var not in binds)):
+            return None
+        const = inline if inline is not None else binds[var]
+        out.append((eff(const, "write_fg_span"), _name(lit, "write_fg_span class"), const))
+    # (a bound boolean that is never used does not count)
+    unused = [c for v, c in binds.items() if len(re.findall(r"\b%s\b" % re.escape(v), wf)) == 1]
+    if sorted([c for _, _, c in out] + unused) != sorted(re.findall(r"anstyle::Effects::(\w+)", wf)):
+        return None
+    return out
+
+
+def _effect_classes_loose(wf, eff):
+    seq = [(m.group(1), m.group(2)) for m in re.finditer(r"anstyle::Effects::(\w+)|(?<![#\w])\"([a-z][a-z0-9-]*)\"", wf)]
+    if not seq or len(seq) % 2 or any((c is None) != (i % 2 == 1) for i, (c, _l) in enumerate(seq)):
+        raise GenError("write_fg_span: cannot pair the effect constants with the class names (they do not alternate)")
+    return [(eff(seq[i][0], "write_fg_span"), _name(seq[i + 1][1], "write_fg_span class"), seq[i][0]) for i in range(0, len(seq), 2)]
+
+
 def gen_svg():
     src = _drop_line_comments(read(SRC))
     effects = _effect_names()
@@ -101,11 +140,11 @@ def gen_svg():
             r"anstyle::Color::Ansi256\(color\) => \{\s*let index = color\.index\(\);\s*format!\(\"\{prefix\}-ansi256-\{index:03\}\"\)\s*\}\s*"
             r"anstyle::Color::Rgb\(color\) => \{\s*let anstyle::RgbColor\(r, g, b\) = color;\s*format!\(\"\{prefix\}-rgb-\{r:02X\}\{g:02X\}\{b:02X\}\"\)\s*\}\s*\}\s*")
     if not re.fullmatch(want, cn, re.S):
-        raise GenError("color_name: unexpected shape")
+        _fn_takes_over("color_name: unexpected shape")
     rv = _body(src, r"fn rgb_value\s*\(color:\s*anstyle::Color,\s*palette:\s*Palette\)\s*->\s*String\s*\{", "rgb_value")
     if not re.fullmatch(r"\s*let color = anstyle_lossy::color_to_rgb\(color, palette\);\s*let anstyle::RgbColor\(r, g, b\) = color;\s*"
                         r"format!\(\"#\{r:02X\}\{g:02X\}\{b:02X\}\"\)\s*", rv, re.S):
-        raise GenError("rgb_value: unexpected shape")
+        _fn_takes_over("rgb_value: unexpected shape")
     # prefixes
     consts = {}
     for c in ("FG_PREFIX", "BG_PREFIX", "UNDERLINE_PREFIX"):
@@ -134,9 +173,9 @@ def gen_svg():
                       (r"let text_x = self\.padding_px;\s*let mut text_y = self\.padding_px \+ line_height;", "text_x / text_y"),
                       (r"text_y \+= line_height;", "text_y step")):
         if len(re.findall(pin, rs)) != 1:
-            raise GenError("render_svg: %s is not the pinned integer expression" % what)
+            _fn_takes_over("render_svg: %s is not the pinned integer expression" % what)
     if len(re.findall(r"\bheight\b", rs)) != 6 or len(re.findall(r"\btext_y\b", rs)) != 4 or len(re.findall(r"\bline_height\b", rs)) != 6:
-        raise GenError("render_svg: height / text_y / line_height are used outside the pinned expressions")
+        _fn_takes_over("render_svg: height / text_y / line_height are used outside the pinned expressions")
     # Term::new()
     nb = _body(src, r"pub const fn new\s*\(\)\s*->\s*Self\s*\{", "Term::new")
     fields = {}
@@ -163,27 +202,24 @@ def gen_svg():
     wf = _body(src, r"fn write_fg_span\s*\(buffer:\s*&mut String,\s*style:\s*&anstyle::Style,\s*fragment:\s*&str\)\s*\{", "write_fg_span")
     binds = dict((v, e) for v, e in re.findall(r"let (\w+) = effects\.contains\(anstyle::Effects::(\w+)\);", wf))
     if not re.search(r"let effects = style\.get_effects\(\);", wf):
-        raise GenError("write_fg_span: `effects` is not style.get_effects()")
+        _fn_takes_over("write_fg_span: `effects` is not style.get_effects()")
     if not re.search(r"let fg_color = style\.get_fg_color\(\)\.map\(\|c\| color_name\(FG_PREFIX, c\)\);", wf) or \
        not re.search(r"let underline_color = style\s*\.get_underline_color\(\)\s*\.map\(\|c\| color_name\(UNDERLINE_PREFIX, c\)\);", wf):
-        raise GenError("write_fg_span: colour class bindings not recognised")
-    pushes = list(re.finditer(r"if (?:let Some\(class\) = (\w+)\.as_deref\(\)|(\w+)) \{\s*classes\.push\((?:class|\"([^\"\\]*)\")\);\s*\}", wf))
-    if len(pushes) != len(re.findall(r"classes\.push\(", wf)):
-        raise GenError("write_fg_span: a classes.push(...) of unrecognised shape")
-    if len(pushes) < 2 or pushes[0].group(1) != "fg_color" or pushes[1].group(1) != "underline_color":
-        raise GenError("write_fg_span: expected the fg colour class, then the underline colour class first")
-    eff_classes = []
-    for p in pushes[2:]:
-        var, lit = p.group(2), p.group(3)
-        if var is None or lit is None or var not in binds:
-            raise GenError("write_fg_span: push of unrecognised shape %r" % p.group(0)[:60])
-        eff_classes.append((eff(binds[var], "write_fg_span"), _name(lit, "write_fg_span class"), binds[var]))
+        _fn_takes_over("write_fg_span: colour class bindings not recognised")
+    eff_classes = _effect_classes_strict(wf, binds, eff)
+    if eff_classes is None:
+        # the pushes are spelled another way (a helper that pushes, a table + loop, ..): the DATA is still read off the
+        # text -- the constants `anstyle::Effects::X` and the plain class-name literals must alternate, which pairs them --
+        # and what the function does with them is SvgFn's translation, proved against this very table (Proofs/SvgGen.v
+        # g_svg_write_fg_span_eq): pairs read off wrongly make that proof fail, they cannot make it pass
+        _fn_takes_over("write_fg_span: the classes.push(...) statements are not of the known shape")
+        eff_classes = _effect_classes_loose(wf, eff)
     if len(set(e for e, _, _ in eff_classes)) != len(eff_classes):
         raise GenError("write_fg_span: an effect is pushed twice")
     if not re.search(r'let classes = classes\.join\(" "\);', wf) or not re.search(r"let fragment = html_escape::encode_text\(fragment\);", wf):
-        raise GenError("write_fg_span: join / encode_text not recognised")
+        _fn_takes_over("write_fg_span: join / encode_text not recognised")
     if not re.search(r"let fragment = html_escape::encode_text\(fragment\);\s*let fragment = fragment\.replace\('\\r', \"&#13;\"\);", wf):
-        raise GenError("write_fg_span: the carriage return is not replaced by &#13; right after encode_text")
+        _fn_takes_over("write_fg_span: the carriage return is not replaced by &#13; right after encode_text")
     # write_bg_span
     wb = _body(src, r"fn write_bg_span\s*\(buffer:\s*&mut String,\s*style:\s*&anstyle::Style,\s*fragment:\s*&str\)\s*\{", "write_bg_span")
     m = re.search(r'let fill = if bg_color\.is_some\(\) \{ "([^"\\]*)" \} else \{ "([^"\\]*)" \};', wb)
@@ -191,7 +227,7 @@ def gen_svg():
         raise GenError("write_bg_span: fill characters not recognised")
     fill_on, fill_off = ord(m.group(1)), ord(m.group(2))
     if not re.search(r"let bg_color = style\.get_bg_color\(\)\.map\(\|c\| color_name\(BG_PREFIX, c\)\);", wb):
-        raise GenError("write_bg_span: colour class binding not recognised")
+        _fn_takes_over("write_bg_span: colour class binding not recognised")
     # render_svg: effect rules in source order
     rules = []
     for mm in re.finditer(r"if effects_in_use\.contains\(anstyle::Effects::(\w+)\)\s*\{\s*writeln!\(\s*&mut buffer,\s*r#\"(.*?)\"#\s*,?\s*\)\s*\.unwrap\(\);\s*\}", rs, re.S):
